@@ -9,6 +9,7 @@ import sys
 from py_gql import build_schema, graphql_blocking
 from py_gql.lang import parse
 from py_gql.schema.differ import diff_schema
+from py_gql.sdl import ASTSchemaPrinter
 from py_gql.schema.transforms import (
     CamelCaseSchemaTransform,
     transform_schema,
@@ -77,6 +78,7 @@ def run_machine(draws, state, tier):
     st = draws.stream("ops")
     n_ops = 3 + st.below(12 if tier == "quick" else 28, "n_ops")
     seq = []
+    printers = {}
     parsed_ok = set()
     for step in range(n_ops):
         kind = st.weighted((6, 2, 3), "op")  # print, roundtrip, activity
@@ -111,7 +113,15 @@ def run_machine(draws, state, tier):
         seq.append(("print" if kind == 0 else "roundtrip", si, oi))
         want = table["%d:%d" % (si, oi)]
         try:
-            text = entry.schema.to_string(**opt_kwargs(opt))
+            if st.below(2, "printer_object"):
+                # one ASTSchemaPrinter object reused for several schemas
+                pr = printers.get(oi)
+                if pr is None:
+                    pr = printers[oi] = ASTSchemaPrinter(**opt_kwargs(opt))
+                res.count("probe:printer_object_reused")
+                text = pr(entry.schema)
+            else:
+                text = entry.schema.to_string(**opt_kwargs(opt))
             got = {"text": text}
         except Exception as err:  # noqa: B902
             got = {"error": type(err).__name__}
